@@ -37,28 +37,44 @@ def nullBound (g : Graph) (s : Stmt) : Bool :=
     | _ => []
   rows.any fun r => vars.any fun x => r.get x == some .null
 
-/-- every (entity) a non-CREATE update item touches, over all driving rows -/
+/-- the entity a row binds `x` to -/
+def entOf (r : Row) (x : String) : Option Val :=
+  match r.get x with
+  | some (.node n) => some (.node n) | some (.rel e) => some (.rel e) | _ => none
+
+/-- every entity a SET / REMOVE item touches, over all driving rows (one entry per row and item) -/
 def touched (g : Graph) (s : Stmt) : List Val :=
   let rows := prefixRows A params g s
   let vars := s.updates.flatMap fun
     | .set its => its.map setItemVar
     | .remove its => its.map fun | .prop x _ => x | .labels x _ => x
     | _ => []
-  rows.flatMap fun r => vars.filterMap fun x => match r.get x with
-    | some (.node n) => some (.node n) | some (.rel e) => some (.rel e) | _ => none
+  rows.flatMap fun r => vars.filterMap (entOf r)
 
-def hasDupVal : List Val → Bool
-  | [] => false
-  | v :: vs => vs.contains v || hasDupVal vs
+/-- the touches whose effect or count the engine DECIDES by looking at the entity: REMOVE, SET = map, SET += map,
+    SET labels, and `SET x.k = e` where `e` is null on the row (a removal).  A plain assignment of a non-null value
+    is not among them: it is issued and counted unconditionally. -/
+def decided (g : Graph) (s : Stmt) : List Val :=
+  let rows := prefixRows A params g s
+  rows.flatMap fun r => s.updates.flatMap fun
+    | .set its => its.filterMap fun
+      | .prop x _ e => if eval A { g, params } r e == .null then entOf r x else none
+      | .mapReplace x _ => entOf r x
+      | .mapMerge x _ => entOf r x
+      | .labels x _ => entOf r x
+    | .remove its => its.filterMap fun | .prop x _ => entOf r x | .labels x _ => entOf r x
+    | _ => []
 
-/-- C12-writes-decided-against-snapshot: SET map / REMOVE / label items decide what to write and what to count
-    against the statement-start snapshot; wrong as soon as one entity is targeted twice by the statement -/
+def countVal (v : Val) (l : List Val) : Nat := (l.filter (· == v)).length
+
+/-- C12-writes-decided-against-snapshot: SET map / REMOVE / label / null-assignment items decide what to write and
+    what to count against the statement-start snapshot (plus the per-variable row overlay); wrong as soon as the
+    entity of such an item is touched at least twice by the statement.  Kept narrow on purpose: a statement that
+    only repeats plain non-null assignments `SET x.k = v` (UNWIND-driven rows, several items on one key) triggers
+    nothing — there the last assignment must win, unconditionally (`update_refines_set_prop_rows`). -/
 def repeatedTarget (g : Graph) (s : Stmt) : Bool :=
-  let hasItem := s.updates.any fun
-    | .set _ => true
-    | .remove _ => true
-    | _ => false
-  hasItem && hasDupVal (touched A params g s)
+  let all := touched A params g s
+  (decided A params g s).any fun v => countVal v all ≥ 2
 
 /-- C12-merge-partial-pattern-reuse: relationship MERGE whose end nodes are not both bound re-uses existing
     nodes that match the node patterns instead of matching / creating the whole pattern -/
